@@ -523,6 +523,8 @@ def streams(ctx):
     valid = _gen_valid(ctx.rng("valid"), 700 if quick else 8000)
     pool = [s for _, s in valid] + LAYOUT_CORPUS
     bad = [("m", s) for s in INVALID_CORPUS] + [("e", s) for s in INVALID_CORPUS[::2]]
+    import shapes as _shapes
+    bad += [("m", s) for s in _shapes.rule_violations()]          # every self-enforced rule, compact and spaced spellings
     for _ in range(2500 if quick else 40000):
         s = _mutate(rng, rng.choice(pool)) if pool else "("
         if rng.random() < 0.5:
